@@ -232,6 +232,43 @@ func (w *writerA) writeBounds(rule string) {
 		})
 		r.Check(rule, shortFn(w.flush), "summary-of-flushFrame", w.flush.Pos(), ok && nRet > 0, why)
 	}
+	// ---- the tail-withholding writer of the compression path: 0 <= tw.n <= len(tw.p) (4), same scheme
+	{
+		twW := c.fn("(*truncWriter).Write")
+		twN, twP := c.P.Field("truncWriter", "n"), c.P.Field("truncWriter", "p")
+		capN := int64(4)
+		if at, isArr := twP.Type().Underlying().(*types.Array); isArr {
+			capN = at.Len()
+		}
+		o := st.opts()
+		o.OnFreshLoad = func(x *core.Explorer, addr, val *core.Term) {
+			if addr.Kind == core.KFieldAddr && addr.Var == twN {
+				x.AssumeGE(val, 0)
+				x.AssumeLE(val, capN)
+			}
+		}
+		o.OnStore = func(x *core.Explorer, fn *ssa.Function, in *ssa.Store, addr, val *core.Term) {
+			if addr.Kind != core.KFieldAddr || addr.Var != twN {
+				return
+			}
+			s := st.sites[in]
+			if s == nil {
+				s = &c07site{fn: fn, in: in, proven: true, kind: "cursor", key: "store truncWriter.n := " + stableKey(val)}
+				st.sites[in] = s
+			}
+			s.visited++
+			if !x.ProveLeq(x.T.Int(0), val) || !x.ProveLeq(val, x.T.Int(capN)) {
+				s.unproven++
+				s.proven = false
+				s.failWhy = "the value stored to truncWriter.n (" + val.String() + ") is not known to stay within 0.." + fmt.Sprint(capN) + ": the next w.p[w.n:] is out of range"
+			}
+		}
+		c.explore(rule, twW, o, func(p *core.Path) {})
+		for _, s := range c.P.FieldStoreSites(twN) {
+			f := s.Parent()
+			r.Check(rule, shortFn(f), "writer-of-truncWriter.n", s.Pos(), f == twW || c.privateHelperOf(f, twW), "truncWriter.n is stored outside truncWriter.Write (the store is not covered by the invariant proof)")
+		}
+	}
 	st.report()
 
 	// ---- establish
